@@ -584,18 +584,20 @@ func callSSA(i *interpreter, caller *frame, callpos token.Pos, fn *ssa.Function,
 		caller: caller, // for panic/recover
 		fn:     fn,
 	}
+	// the depth is set before intrinsics are tried: an intrinsic may call back into
+	// target code (fmt calling a String method), and recursion through it must be counted too
+	if caller != nil {
+		fr.depth = caller.depth + 1
+		if fr.depth > 3000 {
+			panic(pathEnd{"budget", "call depth 3000 exceeded (unbounded recursion) in " + fn.String()})
+		}
+	}
 	if fn.Parent() == nil {
 		if res, handled := intercept(fr, fn, args); handled {
 			return res
 		}
 		if fn.Blocks == nil {
 			panic(pathEnd{"unsupported", "no code for function: " + fn.String() + " called at " + P.site()})
-		}
-	}
-	if caller != nil {
-		fr.depth = caller.depth + 1
-		if fr.depth > 3000 {
-			panic(pathEnd{"budget", "call depth 3000 exceeded (unbounded recursion) in " + fn.String()})
 		}
 	}
 	if P.watchCB != nil && !P.inWatch {
